@@ -44,7 +44,7 @@ class Gen:
         if k == "bool":
             return Bool(r.random() < 0.5)
         if k == "string":
-            return Str(r.choice(["a", "bc", "x y", "", "q-r", "é"]))
+            return Str(r.choice(["a", "bc", "x y", "", "q\"r", "é", "b\\s", "n\nl", "t\tab"]))
         if k == "unit":
             return Unit
         if k == "tuple":
